@@ -3,6 +3,7 @@ package main
 import (
 	"bytes"
 	"fmt"
+	"strings"
 
 	"github.com/RoaringBitmap/roaring/v2"
 )
@@ -164,6 +165,76 @@ func queryBattery(c *Ctx, bm *BM, nargs int) {
 	c.Eval(1)
 }
 
+// equalCardPerturbation returns a set that differs from m but has the same cardinality in every chunk (one value
+// moved inside its chunk) or the same multiset of chunk cardinalities at other keys (a whole chunk moved to an absent
+// key of the same `chunkBits`-wide grid; universe = the exclusive end of the value space, 0 meaning 2^64).
+func equalCardPerturbation(r *Rng, m *ISet, universe uint64) (*ISet, string) {
+	ivs := m.Intervals()
+	if len(ivs) == 0 {
+		return nil, ""
+	}
+	if r.Chance(0.6) {
+		// move one value inside its chunk
+		for try := 0; try < 20; try++ {
+			v := ivs[r.Intn(len(ivs))]
+			x := r.Range(v.Lo, v.Hi)
+			if r.Chance(0.5) {
+				x = []uint64{v.Lo, v.Hi}[r.Intn(2)]
+			}
+			base := x &^ 0xFFFF
+			var y uint64
+			switch r.Intn(4) {
+			case 0:
+				y = base | r.Range(0, 65535)
+			case 1:
+				y = x + 1
+			case 2:
+				y = x - 1
+			default:
+				y = base | edgeVal16(r)
+			}
+			if y&^0xFFFF != base || m.Contains(y) {
+				continue
+			}
+			pm := m.Clone()
+			pm.Remove(x)
+			pm.Add(y)
+			return pm, fmt.Sprintf("value-moved %d -> %d", x, y)
+		}
+	}
+	// move one whole chunk to an absent key
+	for try := 0; try < 20; try++ {
+		v := ivs[r.Intn(len(ivs))]
+		k := v.Lo >> 16
+		var nk uint64
+		switch r.Intn(3) {
+		case 0:
+			nk = k + 1
+		case 1:
+			nk = k - 1
+		default:
+			nk = edgeVal32(r, m) >> 16
+		}
+		if (universe != 0 && nk >= universe>>16) || nk >= 1<<48 {
+			continue
+		}
+		if universe == 0 && r.Chance(0.5) {
+			nk = k ^ (uint64(1) << (16 + r.Intn(32))) // another bucket
+		}
+		if nk >= 1<<48 || nk == k || m.CountRange(nk<<16, nk<<16|0xFFFF) != 0 {
+			continue
+		}
+		chunk := m.Restrict(k<<16, k<<16|0xFFFF)
+		pm := m.Clone()
+		pm.RemoveRange(k<<16, k<<16|0xFFFF)
+		for _, w := range chunk.Intervals() {
+			pm.AddRange(w.Lo-(k<<16)+(nk<<16), w.Hi-(k<<16)+(nk<<16))
+		}
+		return pm, fmt.Sprintf("chunk-moved key %d -> %d", k, nk)
+	}
+	return nil, ""
+}
+
 func equalU32(a, b []uint32) bool {
 	if len(a) != len(b) {
 		return false
@@ -229,6 +300,23 @@ func c03Queries(c *Ctx) {
 		c.Step("Equals against the set with value %d toggled", x)
 		if bm.B.Equals(o3.B) || o3.B.Equals(bm.B) {
 			c.Fail("query/Equals/different-set", "Equals is true for sets that differ in value %d", x)
+		}
+		// sets of the SAME cardinality (chunk by chunk) that differ: one value moved inside its chunk, and one
+		// whole chunk moved to a key that was absent (same number of chunks, same cardinalities, other keys)
+		if pm, what := equalCardPerturbation(r, m, 1<<32); pm != nil {
+			for _, f3 := range []string{form, f2} {
+				o4, es := buildForm(r, pm, f3)
+				if es != "" {
+					c.Fail("build/"+f3, "%s", es)
+					return
+				}
+				c.Step("Equals against a set of the same cardinality (%s), form %s", what, f3)
+				if bm.B.Equals(o4.B) || o4.B.Equals(bm.B) {
+					c.Fail("query/Equals/different-set-same-cardinality", "Equals is true for different sets of equal cardinality (%s; forms %s and %s)", what, form, f3)
+				}
+				c.Count("equals_same_cardinality_" + strings.Fields(what)[0])
+				c.Eval(2)
+			}
 		}
 		if bm.B.Equals(nil) || bm.B.Equals(42) {
 			c.Fail("query/Equals/non-bitmap", "Equals(non-bitmap) returned true")
